@@ -710,285 +710,355 @@ pub fn line_count(src: &str) -> usize {
 
 // ------------------------------------------------------------------ input features (trigger vocabulary)
 
+/// characters that are (or can be) Markdown syntax wherever they stand in inline text
+const ALWAYS_ACTIVE: &str = "\\`*_[]<>#|~$&";
+
+fn text_is_active(t: &str, at_block_start: bool) -> bool {
+    if t.chars().any(|c| ALWAYS_ACTIVE.contains(c)) {
+        return true;
+    }
+    if at_block_start {
+        let tt = t.trim_start();
+        if tt.starts_with('-') || tt.starts_with('+') || tt.starts_with('=') || tt.starts_with(':') {
+            return true;
+        }
+        let digits = tt.chars().take_while(|c| c.is_ascii_digit()).count();
+        if digits > 0 {
+            if let Some(c) = tt.chars().nth(digits) {
+                if c == '.' || c == ')' {
+                    return true;
+                }
+            }
+        }
+    }
+    false
+}
+
 /// Features of a document computed from the harness's own parse of the *input* only.
+/// They are the trigger vocabulary of known findings (DESIGN §2.5).
 pub fn doc_features(src: &str) -> Vec<String> {
     let mut f: Vec<String> = vec![];
-    let mut add = |s: &str| {
-        if !f.iter().any(|x| x == s) {
-            f.push(s.to_string())
-        }
-    };
+    macro_rules! add {
+        ($s:expr) => {{
+            let s: String = $s.into();
+            if !f.iter().any(|x| *x == s) {
+                f.push(s)
+            }
+        }};
+    }
     if src.contains('\r') {
-        add("cr");
+        add!("cr");
     }
     if !src.is_ascii() {
-        add("non-ascii");
+        add!("non-ascii");
     }
-    // stack of containers; for items: number of blocks seen so far and kind of first block
-    #[derive(Clone)]
     struct Item {
-        blocks: usize,
-        first: Option<&'static str>,
-        tight_text: bool,
-        saw_text: bool,
+        kinds: Vec<&'static str>,
     }
     let mut items: Vec<Item> = vec![];
     let mut in_cell = false;
     let mut in_heading = false;
-    let mut in_link = 0;
     let mut in_code_block = false;
-    let mut last_end_list: Option<bool> = None;
-    let mut after_table = false;
-    let mut depth_quote = 0;
-    let mut prev_block_was_table = false;
+    let mut quote_depth = 0;
+    let mut at_block_start = false;
+    let mut prev_end_table = false;
     let evs: Vec<(Event, std::ops::Range<usize>)> = Parser::new_ext(src, md_options()).into_offset_iter().collect();
-    let n_ev = evs.len();
+    // block registration inside the innermost open item
+    fn reg(items: &mut Vec<Item>, kind: &'static str) -> Vec<String> {
+        let mut out = vec![];
+        if let Some(it) = items.last_mut() {
+            if it.kinds.is_empty() {
+                if !matches!(kind, "para" | "text" | "heading" | "list") {
+                    out.push(format!("item-first-block={}", kind));
+                    out.push("item-first-block-nontext".to_string());
+                } else if kind != "para" && kind != "text" {
+                    out.push(format!("item-first-block={}", kind));
+                }
+            } else {
+                let prev = *it.kinds.last().unwrap();
+                if matches!(prev, "para" | "text" | "heading") {
+                    out.push(format!("item:text-then-{}", kind));
+                }
+            }
+            it.kinds.push(kind);
+        }
+        out
+    }
     for (i, (ev, range)) in evs.iter().enumerate() {
-        let mut block_start = |kind: &'static str, items: &mut Vec<Item>, f: &mut dyn FnMut(&str)| {
-            if let Some(it) = items.last_mut() {
-                if it.blocks == 0 {
-                    it.first = Some(kind);
-                    if kind != "para" && kind != "heading" && kind != "list" {
-                        f(&format!("item-first-block={}", kind));
-                        f("item-first-block-nontext");
-                    }
-                    if kind == "heading" {
-                        f("item-first-block=heading");
-                    }
-                    if kind == "list" {
-                        f("item-first-block=list");
-                    }
-                } else if it.tight_text && it.blocks == 1 {
-                    f(&format!("tight-item:text-then-{}", kind));
-                }
-                it.blocks += 1;
-            }
-        };
+        let is_block_start = matches!(
+            ev,
+            Event::Start(Tag::Paragraph)
+                | Event::Start(Tag::Heading { .. })
+                | Event::Start(Tag::CodeBlock(_))
+                | Event::Start(Tag::BlockQuote(_))
+                | Event::Start(Tag::List(_))
+                | Event::Start(Tag::HtmlBlock)
+                | Event::Start(Tag::Table(_))
+                | Event::Rule
+        );
+        if is_block_start && prev_end_table {
+            add!("block-after-table");
+        }
+        if is_block_start {
+            prev_end_table = false;
+        }
         match ev {
-            Event::Start(tag) => {
-                match tag {
-                    Tag::Paragraph => block_start("para", &mut items, &mut add),
-                    Tag::Heading { .. } => {
-                        block_start("heading", &mut items, &mut add);
-                        in_heading = true;
-                        if depth_quote > 0 {
-                            add("heading-in-quote");
-                        }
-                        if !items.is_empty() {
-                            add("heading-in-item");
-                        }
+            Event::Start(tag) => match tag {
+                Tag::Paragraph => {
+                    for x in reg(&mut items, "para") {
+                        add!(x);
                     }
-                    Tag::BlockQuote(_) => {
-                        block_start("quote", &mut items, &mut add);
-                        depth_quote += 1;
-                        add("quote");
-                        // empty quote?
-                        if let Some((Event::End(TagEnd::BlockQuote(_)), _)) = evs.get(i + 1) {
-                            add("empty-quote");
-                        }
+                    at_block_start = true;
+                }
+                Tag::Heading { .. } => {
+                    for x in reg(&mut items, "heading") {
+                        add!(x);
                     }
-                    Tag::CodeBlock(k) => {
-                        block_start("code", &mut items, &mut add);
-                        in_code_block = true;
-                        add("code-block");
-                        match k {
-                            CodeBlockKind::Indented => add("code-indented"),
-                            CodeBlockKind::Fenced(info) => {
-                                if !info.is_empty() {
-                                    add("code-info");
-                                }
-                                if info.contains(' ') || info.contains('`') {
-                                    add("code-info-odd");
-                                }
+                    in_heading = true;
+                    at_block_start = true;
+                    if let Some((Event::End(TagEnd::Heading(_)), _)) = evs.get(i + 1) {
+                        add!("empty-heading");
+                    }
+                    if quote_depth > 0 {
+                        add!("heading-in-quote");
+                    }
+                    if !items.is_empty() {
+                        add!("heading-in-item");
+                    }
+                }
+                Tag::BlockQuote(_) => {
+                    for x in reg(&mut items, "quote") {
+                        add!(x);
+                    }
+                    quote_depth += 1;
+                    add!("quote");
+                    if let Some((Event::End(TagEnd::BlockQuote(_)), _)) = evs.get(i + 1) {
+                        add!("empty-quote");
+                    }
+                }
+                Tag::CodeBlock(k) => {
+                    for x in reg(&mut items, "code") {
+                        add!(x);
+                    }
+                    in_code_block = true;
+                    add!("code-block");
+                    if quote_depth > 0 {
+                        add!("code-in-quote");
+                    }
+                    match k {
+                        CodeBlockKind::Indented => add!("code-indented"),
+                        CodeBlockKind::Fenced(info) => {
+                            if !info.is_empty() {
+                                add!("code-info");
+                            }
+                            if info.contains(' ') || info.contains('`') || info.contains('\t') {
+                                add!("code-info-odd");
                             }
                         }
                     }
-                    Tag::List(ord) => {
-                        block_start("list", &mut items, &mut add);
-                        add("list");
-                        if let Some(prev) = last_end_list {
-                            let _ = prev;
+                }
+                Tag::List(ord) => {
+                    for x in reg(&mut items, "list") {
+                        add!(x);
+                    }
+                    add!("list");
+                    if let Some(o) = ord {
+                        add!("olist");
+                        if *o != 1 {
+                            add!("olist-start-not-1");
                         }
-                        if let Some(o) = ord {
-                            add("olist");
-                            if *o != 1 {
-                                add("olist-start-not-1");
+                    }
+                    if i > 0 {
+                        if let (Event::End(TagEnd::List(_)), _) = &evs[i - 1] {
+                            add!("adjacent-lists");
+                        }
+                    }
+                }
+                Tag::Item => {
+                    items.push(Item { kinds: vec![] });
+                    at_block_start = true;
+                }
+                Tag::Table(_) => {
+                    for x in reg(&mut items, "table") {
+                        add!(x);
+                    }
+                    add!("table");
+                    if quote_depth > 0 {
+                        add!("table-in-quote");
+                    }
+                }
+                Tag::TableCell => {
+                    in_cell = true;
+                    at_block_start = true;
+                }
+                Tag::HtmlBlock => {
+                    for x in reg(&mut items, "html") {
+                        add!(x);
+                    }
+                    add!("html-block");
+                }
+                Tag::MetadataBlock(_) => add!("front-matter"),
+                Tag::Link { link_type, dest_url, title, .. } => {
+                    add!("link");
+                    if let Some(it) = items.last_mut() {
+                        if it.kinds.is_empty() {
+                            it.kinds.push("text");
+                        }
+                    }
+                    if in_cell {
+                        add!("table-cell-contains=link");
+                    }
+                    if in_heading {
+                        add!("heading-contains-link");
+                    }
+                    match link_type {
+                        LinkType::WikiLink { .. } => {
+                            add!("wiki-link");
+                            if in_cell {
+                                add!("table-cell-contains=wiki-link");
                             }
                         }
-                        // adjacency: previous event is End(List)
-                        if i > 0 {
-                            if let (Event::End(TagEnd::List(_)), _) = &evs[i - 1] {
-                                add("adjacent-lists");
-                            }
-                        }
+                        LinkType::Reference
+                        | LinkType::Collapsed
+                        | LinkType::Shortcut
+                        | LinkType::ReferenceUnknown
+                        | LinkType::CollapsedUnknown
+                        | LinkType::ShortcutUnknown => add!("refdef-link"),
+                        LinkType::Autolink | LinkType::Email => add!("autolink"),
+                        _ => {}
                     }
-                    Tag::Item => {
-                        items.push(Item { blocks: 0, first: None, tight_text: false, saw_text: false });
-                        if let Some((Event::End(TagEnd::Item), _)) = evs.get(i + 1) {
-                            add("empty-item");
-                        }
+                    if !title.is_empty() {
+                        add!("link-title-attr");
                     }
-                    Tag::Table(_) => {
-                        block_start("table", &mut items, &mut add);
-                        add("table");
+                    if dest_url.contains("..") {
+                        add!("url-has-dotdot");
                     }
-                    Tag::TableCell => in_cell = true,
-                    Tag::HtmlBlock => {
-                        block_start("html", &mut items, &mut add);
-                        add("html-block");
+                    if dest_url.chars().any(|c| " ()<>\\".contains(c)) {
+                        add!("url-needs-escaping");
                     }
-                    Tag::MetadataBlock(_) => add("front-matter"),
-                    Tag::Link { link_type, dest_url, title, .. } => {
-                        in_link += 1;
-                        add("link");
-                        if in_cell {
-                            add("table-cell-contains=link");
-                        }
-                        if in_heading {
-                            add("heading-contains-link");
-                        }
-                        match link_type {
-                            LinkType::WikiLink { .. } => add("wiki-link"),
-                            LinkType::Reference | LinkType::Collapsed | LinkType::Shortcut => add("refdef-link"),
-                            LinkType::ReferenceUnknown | LinkType::CollapsedUnknown | LinkType::ShortcutUnknown => add("refdef-link"),
-                            LinkType::Autolink | LinkType::Email => add("autolink"),
-                            _ => {}
-                        }
-                        if !title.is_empty() {
-                            add("link-title-attr");
-                        }
-                        if dest_url.contains("..") {
-                            add("url-has-dotdot");
-                        }
-                        if dest_url.contains(' ') || dest_url.contains('(') || dest_url.contains(')') || dest_url.contains('<') {
-                            add("url-needs-escaping");
-                        }
-                        if dest_url.is_empty() {
-                            add("url-empty");
-                        }
+                    if dest_url.is_empty() {
+                        add!("url-empty");
                     }
-                    Tag::Image { .. } => {
-                        add("image");
-                        if in_cell {
-                            add("table-cell-contains=image");
-                        }
+                    if dest_url.ends_with(".md") {
+                        add!("url-has-md-ext");
                     }
-                    Tag::Emphasis | Tag::Strong => {
-                        add("emphasis");
-                        if in_cell {
-                            add("table-cell-contains=emphasis");
-                        }
-                    }
-                    _ => {}
+                    at_block_start = false;
                 }
-                if !matches!(tag, Tag::TableHead | Tag::TableRow | Tag::TableCell | Tag::Link { .. } | Tag::Image { .. } | Tag::Emphasis | Tag::Strong | Tag::Item | Tag::List(_) | Tag::Table(_)) {
-                    if prev_block_was_table || after_table {
-                        add("block-after-table");
+                Tag::Image { .. } => {
+                    add!("image");
+                    if in_cell {
+                        add!("table-cell-contains=image");
                     }
+                    at_block_start = false;
                 }
-                if matches!(tag, Tag::List(_)) && (prev_block_was_table || after_table) {
-                    add("block-after-table");
+                Tag::Emphasis | Tag::Strong | Tag::Strikethrough => {
+                    add!("emphasis");
                 }
-            }
+                _ => {}
+            },
             Event::End(tag) => match tag {
                 TagEnd::Heading(_) => in_heading = false,
-                TagEnd::BlockQuote(_) => depth_quote -= 1,
+                TagEnd::BlockQuote(_) => quote_depth -= 1,
                 TagEnd::CodeBlock => in_code_block = false,
                 TagEnd::Item => {
                     if let Some(it) = items.pop() {
-                        if it.blocks == 0 && !it.saw_text {
-                            add("empty-item");
+                        if it.kinds.is_empty() || it.kinds.iter().all(|k| *k == "html") {
+                            add!("empty-item");
                         }
                     }
                 }
-                TagEnd::List(o) => last_end_list = Some(*o),
                 TagEnd::TableCell => in_cell = false,
-                TagEnd::Table => {
-                    after_table = true;
-                }
-                TagEnd::Link => in_link -= 1,
+                TagEnd::Table => prev_end_table = true,
                 _ => {}
             },
             Event::Text(t) => {
                 if in_code_block {
-                    if t.contains("```") || t.contains("~~~") {
-                        add("code-body-contains-fence");
+                    if t.contains("```") {
+                        add!("code-body-contains-fence");
                     }
-                    if t.starts_with('\n') || t.starts_with(' ') {
-                        add("code-body-leading-blank");
+                    if quote_depth > 0 && t.split('\n').any(|l| l != l.trim_end() || l != l.trim_start()) {
+                        add!("quote-code-line-edge-space");
+                    }
+                    if t.starts_with('\n') || t.ends_with("\n\n") || t.trim().is_empty() {
+                        add!("code-body-edge-blank");
                     }
                 } else {
                     if let Some(it) = items.last_mut() {
-                        if it.blocks == 0 && !it.saw_text {
-                            // tight item text (no paragraph start)
-                            it.tight_text = true;
-                            it.saw_text = true;
-                            it.blocks = 1;
-                            it.first = Some("text");
+                        if it.kinds.is_empty() {
+                            it.kinds.push("text");
                         }
                     }
-                    // escapes: compare the source slice with the event text
-                    let raw = &src[range.clone()];
+                    let raw = src.get(range.clone()).unwrap_or("");
                     if raw != t.as_ref() {
-                        add("text-differs-from-source");
+                        add!("text-differs-from-source");
                     }
-                    if t.chars().any(|c| "\\`*_{}[]()#+-.!|<>~$&=:\"'".contains(c)) {
-                        add("text-has-markup-char");
+                    let escaped = range.start > 0 && src.as_bytes()[range.start - 1] == b'\\';
+                    if escaped {
+                        add!("backslash-escape");
+                    }
+                    if escaped || text_is_active(t, at_block_start) {
+                        add!("text-active-char");
                     }
                     if in_cell && t.contains('|') {
-                        add("table-cell-contains=pipe");
+                        add!("table-cell-contains=pipe");
                     }
+                    at_block_start = false;
                 }
             }
             Event::Code(t) => {
-                add("code-span");
+                add!("code-span");
                 if let Some(it) = items.last_mut() {
-                    if it.blocks == 0 && !it.saw_text {
-                        it.tight_text = true;
-                        it.saw_text = true;
-                        it.blocks = 1;
+                    if it.kinds.is_empty() {
+                        it.kinds.push("text");
                     }
                 }
                 if t.contains('`') {
-                    add("code-span-contains-backtick");
+                    add!("code-span-contains-backtick");
                 }
                 if t.starts_with(' ') || t.ends_with(' ') || t.is_empty() {
-                    add("code-span-edge-space");
+                    add!("code-span-edge-space");
                 }
                 if in_cell {
-                    add("table-cell-contains=code");
+                    add!("table-cell-contains=code");
                 }
+                at_block_start = false;
             }
-            Event::SoftBreak => add("softbreak"),
-            Event::HardBreak => add("hardbreak"),
-            Event::InlineHtml(_) => add("inline-html"),
-            Event::Html(_) => add("html-block"),
-            Event::InlineMath(_) => add("inline-math"),
+            Event::SoftBreak => {
+                add!("softbreak");
+                at_block_start = true;
+            }
+            Event::HardBreak => {
+                add!("hardbreak");
+                at_block_start = true;
+            }
+            Event::InlineHtml(_) => {
+                add!("inline-html");
+                if at_block_start {
+                    add!("inline-html-at-block-start");
+                }
+                if let Some(it) = items.last_mut() {
+                    if it.kinds.is_empty() {
+                        it.kinds.push("text");
+                    }
+                }
+                at_block_start = false;
+            }
+            Event::Html(_) => add!("html-block"),
+            Event::InlineMath(_) => {
+                add!("inline-math");
+                if in_cell {
+                    add!("table-cell-contains=math");
+                }
+                at_block_start = false;
+            }
             Event::Rule => {
-                block_start("rule", &mut items, &mut add);
-                add("rule");
-                if prev_block_was_table || after_table {
-                    add("block-after-table");
+                for x in reg(&mut items, "rule") {
+                    add!(x);
                 }
+                add!("rule");
             }
             _ => {}
         }
-        // track whether the previous *block-level* end was a table
-        match ev {
-            Event::End(TagEnd::Table) => prev_block_was_table = true,
-            Event::Start(Tag::Paragraph) | Event::Start(Tag::Heading { .. }) | Event::Start(Tag::CodeBlock(_)) | Event::Rule | Event::Start(Tag::BlockQuote(_)) | Event::Start(Tag::List(_)) | Event::Start(Tag::HtmlBlock) => {
-                prev_block_was_table = false
-            }
-            _ => {}
-        }
-        let _ = n_ev;
-        let _ = in_link;
-    }
-    if src.contains('\\') {
-        add("backslash");
-    }
-    if src.contains('&') {
-        add("ampersand");
     }
     f.sort();
     f
